@@ -39,12 +39,19 @@ EDITS=[
  ("C35","drop-isregular","cmd/shfmt/main.go",("if !info.Mode().IsRegular() {","if false {"),"cmd/shfmt.formatBytes#ensures@written-only-if"),
  ("C35","fixed-perm","cmd/shfmt/main.go",("perm := info.Mode().Perm()","perm := fs.FileMode(0o644)"),"cmd/shfmt.formatBytes#ensures@written-only-if"),
  ("C35","stat-for-lstat","cmd/shfmt/main.go",("info, err := os.Lstat(path)","info, err := os.Stat(path)"),"cmd/shfmt.formatBytes#ensures@written-only-if"),
- ("C35","os-writefile","cmd/shfmt/main.go",("maybeio.WriteFile(path, res, perm)","os.WriteFile(path, res, perm)"),"cmd/shfmt#file-effects@"),
+ ("C35","os-writefile","cmd/shfmt/main.go",("if err := maybeio.WriteFile(path, res, perm); err != nil {","if err := func() error { _ = maybeio.WriteFile; return os.WriteFile(path, res, perm) }(); err != nil {"),"cmd/shfmt#file-effects@"),
  ("C28","shift-negative-again","interp/builtin.go",("\t\t\t\tif n2 < 0 {\n\t\t\t\t\treturn failf(1, \"shift: %d: shift count out of range\\n\", n2)\n\t\t\t\t}\n",""),"interp.Runner.builtin#slice@r.Params[n:]"),
  ("C28","getopts-stale-index","interp/builtin.go",("\tif g.runeidx >= len(opts) {\n\t\t// The arguments changed since the previous call; start over on this one.\n\t\tg.runeidx = 0\n\t}\n",""),"interp.getopts.next#index@opts[g.runeidx]"),
- ("C28","wait-no-lower-bound","interp/builtin.go",("if pid <= 0 || pid > len(r.bgProcs)","if pid > len(r.bgProcs)"),"interp.Runner.builtin#index@r.bgProcs[pid-1]"),
+ ("C28","wait-no-lower-bound","interp/builtin.go",("if !ok || pid <= 0 || pid > int64(len(r.bgProcs)) {","if !ok || pid > int64(len(r.bgProcs)) {"),"interp.Runner.builtin#index@r.bgProcs[pid-1]"),
  ("C34","get-too-short-match","expand/environ.go",("\t\t\tif c := l.compare(pair, name); c != 0 {\n\t\t\t\treturn c\n\t\t\t}\n\t\t\t// The pair is the name itself, so it sorts before \"name=\".\n\t\t\treturn -1","\t\t\treturn l.compare(pair, name)"),"expand.listEnviron.Get$1#ensures@zero-means-long"),
  ("C34","keep-invalid-pairs","expand/environ.go",("if name == \"\" || !ok {","if !ok {"),"expand.listEnviron_#"),
+ ("C11","recover-before-lang-check","syntax/parser.go",("\t\tif p.recoverError() {\n\t\t\treturn []*Stmt{{Position: recoveredPos}}, nil\n\t\t}\n\t\tp.followErr(lpos, left, noQuote(\"a statement list\"))","\t\tif p.recoverError() {\n\t\t\treturn []*Stmt{{Position: recoveredPos}}, nil\n\t\t}"),"syntax#recovery-only-on-error@"),
+ ("C11","zsh-period-again","syntax/parser_arithm.go",("\t\t// Even where floating point is allowed, a period here means the expression did not end.\n\t\tp.matchingErr(pos, left, right)\n",""),"syntax#recovery-only-on-error@"),
+ ("C16","sequence-wraps-again","expand/braces.go",("\t\t\t\t\tif uint64(to)-uint64(n) < step {\n\t\t\t\t\t\tbreak\n\t\t\t\t\t}\n","\t\t\t\t\tif n > to {\n\t\t\t\t\t\tbreak\n\t\t\t\t\t}\n"),"expand.bracesSeqRec#"),
+ ("C16","zero-step","expand/braces.go",("\t\t\t\t} else if n > 0 {\n\t\t\t\t\tstep = uint64(n)\n\t\t\t\t}","\t\t\t\t} else {\n\t\t\t\t\tstep = uint64(n)\n\t\t\t\t}"),"expand.bracesSeqRec#"),
+ ("C20","assgn-rem-uses-quo","expand/arith.go",("\t\tval %= arg","\t\tval /= arg"),"expand.Config.assgnArit#ensures@rem"),
+ ("C04","negate-ordering","syntax/simplify.go",("\t\tcase TsNoMatch:\n\t\t\ty.Op = TsMatch\n\t\t\ts.modified = true\n\t\t\treturn y\n","\t\tcase TsNoMatch:\n\t\t\ty.Op = TsMatch\n\t\t\ts.modified = true\n\t\t\treturn y\n\t\tcase TsBefore:\n\t\t\ty.Op = TsAfter\n\t\t\ts.modified = true\n\t\t\treturn y\n"),"syntax.simplifier.removeNegateTest#ensures@complement-table"),
+ ("C04","forget-modified","syntax/simplify.go",("\t\tcase TsEmpStr:\n\t\t\ty.Op = TsNempStr\n\t\t\ts.modified = true\n","\t\tcase TsEmpStr:\n\t\t\ty.Op = TsNempStr\n"),"syntax.simplifier.removeNegateTest#ensures@changed-sets-modified"),
 ]
 SEEDS=[ # prop, seed dir, expect
  ("C09","C09-2","syntax.ArithmExp.End#"),
@@ -57,6 +64,11 @@ SEEDS=[ # prop, seed dir, expect
  ("C08","C08-1","syntax.Parser.reset#ensures@lexer"),
  ("C36","C36-1","cmd/shfmt.propsOptions#"),("C36","C36-2","cmd/shfmt.formatBytes#ensures@status-differs-if"),
  ("C35","C35-1","cmd/shfmt#file-effects@"),("C35","C35-2","cmd/shfmt#file-effects@"),
+ ("C11","C11-1","syntax#recovery-only-on-error@"),("C11","C11-3","syntax#bash-implies-bats@"),
+ ("C16","C16-1","expand.bracesSeqRec#inv-init@loop2.pad-covers-endpoints"),
+ ("C20","C20-1","expand.Config.assgnArit#ensures@reads-old-value-first"),("C20","C20-2","syntax.Parser.arithmExpr#precedence@"),
+ ("C04","C04-1","syntax.simplifier.visit#ensures@match-keeps-quotes"),("C04","C04-2","syntax.simplifier.removeNegateTest#ensures@complement-table"),
+ ("C28","C23-2","interp.Runner.readLine#inv-pres@"),
 ]
 out=f'{V}/selftest/mutants'
 shutil.rmtree(out,ignore_errors=True)
